@@ -321,6 +321,23 @@ class PropertyCheck:
                                    failed_clauses=rr["failed"], observed=rr.get("observed"), detail=rr.get("detail"))
                         break
                 rec["inputs_tried"] = len(tried)
+        # Only a refuted PROPERTY-LEVEL clause (a postcondition / step / yield / end / always clause or a stated
+        # "raises X iff ..." clause: their text comes from the property statement) is reported without a failing input.
+        # A refuted INTERMEDIATE obligation (loop invariant initialisation / preservation, call precondition, frame,
+        # safety, absence of an unlisted exception) that no tried input reproduces on the real code only says that the
+        # proof as written no longer goes through - e.g. dump() emitting fields in another order breaks the invariant
+        # "written so far == declaration-order prefix" although every property still holds. That is UNDECIDED; the
+        # bounded stand-in decides.
+        property_level = o.kind in ("ensures", "yields", "ends", "loop-step", "always") or \
+            (o.kind == "raises" and "no-unlisted-exception" not in o.name)
+        if not rec["reproduced"] and not property_level:
+            rec["downgraded"] = "intermediate obligation refuted in the model, no failing input on the real code: undecided"
+            with open(os.path.join(OUT, path), "w") as f:
+                json.dump(rec, f, indent=1, default=str)
+            if not any(u["obligation"] == o.name for u in self.undecided):
+                self.undecided.append({"obligation": o.name, "reason": "refuted in the model (" + str(r["backend"]) + ": sat) but none of the "
+                                       + str(rec.get("inputs_tried", 0)) + " tried inputs fails on the real code; intermediate obligation (" + o.kind + "): the bounded stand-in decides"})
+            return
         # the same named obligation can be refuted on several paths: one replay file and one VIOLATION line per
         # obligation, keeping a reproduced record over an unreproduced one
         prev = getattr(self, "_replayed", {}).get(path)
